@@ -33,47 +33,8 @@ use crate::vk_prelude::*;
 pub mod error { pub struct Error(pub u8); }
 
 // ---------------------------------------------------------------- array-backed stand-in for Vec (shadows the prelude name inside this module)
-// `Vec::remove` is a memmove with a symbolic length for CBMC (measured: 14 GB); four Option slots are not.
-pub struct Vec<T> { pub v: [core::mem::MaybeUninit<T>; 4], pub n: usize }
-// Slots 0..n are initialised (dense prefix, like the real Vec). Option<T> slots were tried first: for T = (Job, Result<..>) CBMC and
-// the native run disagreed on `len()` after a push (niche-encoded Option of a tuple), so the representation avoids niches.
-impl<T> Vec<T> {
-    pub fn new() -> Self { Vec { v: [core::mem::MaybeUninit::uninit(), core::mem::MaybeUninit::uninit(), core::mem::MaybeUninit::uninit(), core::mem::MaybeUninit::uninit()], n: 0 } }
-    pub fn with_capacity(_c: usize) -> Self { Self::new() }
-    pub fn len(&self) -> usize { self.n }
-    pub fn is_empty(&self) -> bool { self.n == 0 }
-    pub fn push(&mut self, t: T) { assert!(self.n < 4, "mock vec capacity"); let n = self.n; self.v[n].write(t); self.n += 1; }
-    pub fn pop(&mut self) -> Option<T> { if self.n == 0 { None } else { self.n -= 1; let n = self.n; Some(unsafe { self.v[n].assume_init_read() }) } }
-    pub fn remove(&mut self, i: usize) -> T {
-        assert!(i < self.n, "removal index out of bounds");
-        let r = unsafe { self.v[i].assume_init_read() };
-        let mut k = 0;
-        while k < 3 { if k >= i && k + 1 < self.n { let nx = unsafe { self.v[k + 1].assume_init_read() }; self.v[k].write(nx); } k += 1; }
-        self.n -= 1;
-        r
-    }
-    pub fn swap_remove(&mut self, i: usize) -> T {
-        assert!(i < self.n, "swap_remove index out of bounds");
-        let r = unsafe { self.v[i].assume_init_read() }; let last = self.n - 1;
-        if i != last { let l = unsafe { self.v[last].assume_init_read() }; self.v[i].write(l); }
-        self.n -= 1;
-        r
-    }
-    pub fn last(&self) -> Option<&T> { if self.n == 0 { None } else { Some(unsafe { self.v[self.n - 1].assume_init_ref() }) } }
-    pub fn last_mut(&mut self) -> Option<&mut T> { if self.n == 0 { None } else { let n = self.n - 1; Some(unsafe { self.v[n].assume_init_mut() }) } }
-    pub fn first(&self) -> Option<&T> { if self.n == 0 { None } else { Some(unsafe { self.v[0].assume_init_ref() }) } }
-    pub fn get(&self, i: usize) -> Option<&T> { if i < self.n { Some(unsafe { self.v[i].assume_init_ref() }) } else { None } }
-    pub fn get_mut(&mut self, i: usize) -> Option<&mut T> { if i < self.n { Some(unsafe { self.v[i].assume_init_mut() }) } else { None } }
-    pub fn iter(&self) -> impl Iterator<Item = &T> { let n = self.n; self.v.iter().take(n).map(|m| unsafe { m.assume_init_ref() }) }
-    pub fn iter_mut(&mut self) -> impl Iterator<Item = &mut T> { let n = self.n; self.v.iter_mut().take(n).map(|m| unsafe { m.assume_init_mut() }) }
-    pub fn retain<F: FnMut(&T) -> bool>(&mut self, mut f: F) { let mut i = 0; while i != self.n { if f(unsafe { self.v[i].assume_init_ref() }) { i += 1; } else { let t = self.remove(i); std::mem::forget(t); } } }
-}
-impl<T> std::ops::Index<usize> for Vec<T> { type Output = T; fn index(&self, i: usize) -> &T { assert!(i < self.n, "index out of bounds"); unsafe { self.v[i].assume_init_ref() } } }
-impl<T> std::ops::IndexMut<usize> for Vec<T> { fn index_mut(&mut self, i: usize) -> &mut T { assert!(i < self.n, "index out of bounds"); unsafe { self.v[i].assume_init_mut() } } }
-fn vk_init_mut<T>(m: &mut core::mem::MaybeUninit<T>) -> &mut T { unsafe { m.assume_init_mut() } }
-fn vk_init_ref<T>(m: &core::mem::MaybeUninit<T>) -> &T { unsafe { m.assume_init_ref() } }
-impl<'a, T> IntoIterator for &'a mut Vec<T> { type Item = &'a mut T; type IntoIter = std::iter::Map<std::iter::Take<std::slice::IterMut<'a, core::mem::MaybeUninit<T>>>, fn(&'a mut core::mem::MaybeUninit<T>) -> &'a mut T>; fn into_iter(self) -> Self::IntoIter { let n = self.n; self.v.iter_mut().take(n).map(vk_init_mut as fn(&'a mut core::mem::MaybeUninit<T>) -> &'a mut T) } }
-impl<'a, T> IntoIterator for &'a Vec<T> { type Item = &'a T; type IntoIter = std::iter::Map<std::iter::Take<std::slice::Iter<'a, core::mem::MaybeUninit<T>>>, fn(&'a core::mem::MaybeUninit<T>) -> &'a T>; fn into_iter(self) -> Self::IntoIter { let n = self.n; self.v.iter().take(n).map(vk_init_ref as fn(&'a core::mem::MaybeUninit<T>) -> &'a T) } }
+// `Vec::remove` is a memmove with a symbolic length for CBMC (measured: 14 GB); see vk_prelude::ArrVec.
+use crate::vk_prelude::ArrVec as Vec;
 macro_rules! vec { () => { Vec::new() }; }
 
 // ---------------------------------------------------------------- duck-typed job table
